@@ -307,7 +307,9 @@ func (s *storage) bootstrap(config Config) (err error) {
 	}()
 	s.appendEntry(config.encode())
 	s.commitLog(1)
-	s.setTerm(1)
+	if s.term == 0 {
+		s.setTerm(1)
+	}
 	s.lastLogIndex, s.lastLogTerm = config.Index, config.Term
 	return nil
 }
